@@ -429,6 +429,15 @@ def F27():
     except TypeError as e:
         return True, "PongMessage.parse(stream) raises %r" % e
 
+def F28():
+    from buidl.pecc import S256Point, G
+    enc = b"\x02" + b"\x00" * 32 + G.sec()[1:]
+    try:
+        pt = S256Point.parse(enc)
+    except ValueError as e:
+        return False, "65-byte string 02||00*32||Gx rejected (%s)" % e
+    return True, "65-byte string 02||00*32||Gx accepted as %s" % pt.sec().hex()[:18]
+
 def K1():
     from buidl.op import op_2rot
     st = [b"1", b"2", b"3", b"4", b"5", b"6"]
